@@ -366,6 +366,11 @@ pub fn run(ctx: &Ctx, rep: &mut Report) {
     let gens: [(&str, fn(&mut Ch, bool) -> Option<Case>); 3] = [("fields", gen_fields), ("variants", gen_variants), ("type-level", gen_type_level)];
     if let Some(p) = &ctx.replay {
         let v: serde_json::Value = serde_json::from_str(&std::fs::read_to_string(p).expect("replay file")).expect("replay json");
+        if v["case"]["gen"] == "fragment-precedence" {
+            let x: Vec<XCase> = fragment_precedence_cases(ctx.tier.name()).into_iter().filter(|x| x.detail["entry"] == v["case"]["entry"]).collect();
+            run_and_compare(rep, "c11", &x);
+            return;
+        }
         if v["case"]["gen"] == "generic-type-level" {
             let x: Vec<XCase> = generic_type_level_cases(ctx.tier.name()).into_iter().filter(|x| x.detail["item"] == v["case"]["item"] && x.detail["entry"] == v["case"]["entry"]).collect();
             run_and_compare(rep, "c11", &x);
@@ -407,8 +412,39 @@ pub fn run(ctx: &Ctx, rep: &mut Report) {
     }
     if ctx.replay.is_none() {
         x.extend(generic_type_level_cases(ctx.tier.name()));
+        x.extend(fragment_precedence_cases(ctx.tier.name()));
     }
     run_and_compare(rep, "c11", &x);
+}
+
+/// A default value built AROUND an `expr` fragment of a macro_rules! macro: the fragment is one operand, whatever
+/// operators it contains (rustc does not treat the invisible group of a fragment as parentheses in proc-macro output).
+fn fragment_precedence_cases(tier: &str) -> Vec<XCase> {
+    let mut v = Vec::new();
+    for entry in Entry::BOTH {
+        let head = match entry {
+            Entry::Attr => "#[derive_ex(Default)]".to_string(),
+            Entry::Derive => "#[derive(Ex)]\n#[derive_ex(Default)]".to_string(),
+        };
+        let item = "pub struct X { #[default($e * 2)] pub a: u8, #[default(10 - $e)] pub b: u8, #[default(-($e) as i8)] pub c: i8 }";
+        let code = format!("use derive_ex::{{derive_ex, Ex}};\nmacro_rules! mk {{ ($e:expr) => {{ #[derive(Debug)]\n{head}\n{item}\nfn direct() -> X {{ X {{ a: $e * 2, b: 10 - $e, c: -($e) as i8 }} }} }} }}\nmk!(1 + 2);\npub fn run() -> String {{ format!(\"{{:?}}|{{:?}}\", <X as ::core::default::Default>::default(), direct()) }}\n");
+        let mut atoms = BTreeSet::new();
+        atoms.insert(format!("entry={}", entry.name()));
+        atoms.insert("expr=around-an-expr-fragment".to_string());
+        v.push(XCase {
+            text: format!("{} {} [$e = 1 + 2]", entry.name(), item),
+            code,
+            expected: "X { a: 6, b: 7, c: -3 }|X { a: 6, b: 7, c: -3 }".to_string(),
+            atoms,
+            nontrivial: true,
+            detail: json!({"gen": "fragment-precedence", "tier": tier, "entry": entry.name(), "item": item}),
+            what: format!("derive_ex(Default) via {} on `{}` inside macro_rules! with $e = 1 + 2", entry.name(), item),
+            inner: 1,
+            symptom: "default-value-differs".into(),
+            must_compile: true,
+        });
+    }
+    v
 }
 
 /// A type-level value on a GENERIC type whose parameter has no `Default` impl: the fields' own defaults are not used,
